@@ -46,7 +46,8 @@ class SymlinkNodeMixin(NodeMixin):
     """
 
     def __getattr__(self, name):
-        if name in ("_NodeMixin__parent", "_NodeMixin__children"):
+        if name.startswith(("_NodeMixin__", "_LightNodeMixin__")):
+            # tree bookkeeping is never forwarded, neither the own one nor the one a LightNodeMixin child looks for
             return super(SymlinkNodeMixin, self).__getattr__(name)
         if name == "__setstate__":
             raise AttributeError(name)
